@@ -217,9 +217,17 @@ def run(F, rep):
     # ------------------------------------------------------------------ M2 / I1
     rep.rule('C14.M2', 'the removal of the 1.x namespace declarations from a math element happens for EVERY math element of a 1.x document: the call depends on the 1.x mode and on the element being math only '
                        '(math without a cn carries the declaration too and is otherwise rejected by the MathML validation of the transformed model)')
-    rm = [c for c in lc.walk() if c.get('k') == 'Call' and c.get('fn') == 'removeCellml1XNamespaces']
+    rm = [c for c in lc.walk() if c.get('k') == 'Call' and c.get('fn') in ('removeCellml1XNamespaces', 'removeNamespaceDefinition')]
     if not rm:
         raise AnalysisBroken('loadComponent: removeCellml1XNamespaces call vanished')
+    # the attributes that use the old namespace are COLLECTED first and the declarations removed afterwards: removing a declaration un-qualifies every attribute below it
+    # that used it (libxml2 nulls their namespace), so a collector that also removes declarations as it goes loses the attributes of the elements it has not reached yet
+    coll = [g_ for g_ in F.funcs.values() if g_.name == 'attributesWithCellml1XNamespace' and '/src/' in g_.file]
+    if not coll:
+        raise AnalysisBroken('attributesWithCellml1XNamespace vanished')
+    for g_ in coll:
+        rem_ = sorted({F.funcs[k_].name for k_ in F.reach([g_.key]) if k_ in F.funcs and F.funcs[k_].name in ('removeNamespaceDefinition', 'removeCellml1XNamespaces', 'clearNamespace')})
+        rep.check(not rem_, 'C14.M2', 'attributesWithCellml1XNamespace|collects only', g_.where(), 'the traversal that records the attributes in the 1.x namespace also calls %s: a declaration on an intermediate element is removed before the attributes below it have been recorded' % rem_, 'removes nothing')
     for c in rm:
         extra = []
         for cn, tr in (ff(lc).conds_at(c) or []):
@@ -314,4 +322,23 @@ def run(F, rep):
     # ------------------------------------------------------------------ both arms of a version test hand over the same values
     from engines import rule_arm_agreement
     rule_arm_agreement(F, rep, 'C14.B1', lambda g: g.file.endswith('/parser.cpp'), 'parser.cpp')
+
+    # ------------------------------------------------------------------ whole-model fix-ups reach every component
+    rep.rule('C14.T1', 'a fix-up pass of loadModel over the components of the model that runs after the encapsulation has been loaded (which moves components under their parents) reaches the whole hierarchy: '
+                       'a plain loop over model->component(i) sees the top level only, so the 1.x transformation would be applied to top-level components and skipped for encapsulated ones')
+    import recursion as _rec14
+    lm14 = F.fn1('Parser::ParserImpl::loadModel')
+    enc14 = [c for c in lm14.walk() if c.get('k') == 'Call' and c.get('fn') == 'loadEncapsulation']
+    if not enc14:
+        raise AnalysisBroken('loadModel: call of loadEncapsulation vanished')
+    last_enc = max(c.get('l', 0) for c in enc14)
+    walkers14 = {g_.key for g_, loop_, rec_ in _rec14.tree_walkers(F)}
+    n_t1 = 0
+    for L in lm14.walk():
+        if L.get('k') == 'For' and 'componentCount()' in render(role(L, 'cond')) and L.get('l', 0) > last_enc and lm14.enclosing_lambda(L) is None:
+            n_t1 += 1
+            deep = any(c.get('k') == 'Call' and not c.get('opc') and any(k_ in walkers14 or (k_ in F.funcs and walkers14 & F.reach([k_])) for k_ in F.callee_keys(c)) for c in walk(role(L, 'body')))
+            rep.check(deep, 'C14.T1', 'loadModel|loop@%s' % render(role(L, 'cond'))[:40], lm14.where(L), 'loadModel runs `for (%s)` after loadEncapsulation and handles each top-level component itself: components encapsulated under them are not visited' % render(role(L, 'cond'))[:50],
+                      'hands each component to a walk of the whole subtree')
+    rep.ok('C14.T1', 'scan', None, '%d loops over the model\'s components after the encapsulation was loaded' % n_t1)
 
